@@ -23,6 +23,6 @@ LE(x, k) == [i \in 1..k |-> IF i = 1 THEN x % 256
 FromLE(bs) == FoldLeft(LAMBDA acc, i : acc + bs[i] * (<<1, 256, 65536, 16777216>>)[i], 0,
                        [i \in 1..Len(bs) |-> i])
 
-Min(a, b) == IF a < b THEN a ELSE b
-Max(a, b) == IF a > b THEN a ELSE b
+Min2(a, b) == IF a < b THEN a ELSE b
+Max2(a, b) == IF a > b THEN a ELSE b
 =============================================================================
